@@ -62,7 +62,8 @@ Chg(ch) == /\ st = "saved"
            /\ cur' = Apply(kind, ch, cur)
            /\ hist' = Append(hist, [a |-> "Chg:" \o ch, c |-> cur'])
            /\ UNCHANGED <<kind, env, st, r, sv, via, cls, ok>>
-Next == Run \/ Save \/ Regen \/ \E ch \in Changes(kind) : Chg(ch)
+Change == \E ch \in Changes(kind) : Chg(ch)
+Next == Run \/ Save \/ Regen \/ Change
 Spec == Init /\ [][Next]_vars
 Bounded == Len(hist) <= Depth
 
